@@ -149,7 +149,7 @@ class C12:
     PROBES = ['fault_after_split', 'fault_in_subspine', 'fault_after_join', 'adjacent_faults', 'fault_in_non_kern', 'fault_in_last_row',
               'fault_in_bar_row', 'fault_in_interp_row', 'two_imports_one_process', 'history_err_then_valid', 'blank_line_before_fault',
               'fault_in_second_kern_spine', 'later_kern_cell_after_fault', 'dropped_row_resurrected', 'leading_blank_line', 'interrupt_delivered', 'same_malformed_text_twice_in_a_row',
-              'damaged_text_loaded_from_file', 'file_import_under_non_utf8_locale', 'reentrant_import_delivered', 'measure_range_export_checked', 'strict_and_deprecated_entry_points_compared']
+              'damaged_text_loaded_from_file', 'file_import_under_non_utf8_locale', 'reentrant_import_delivered', 'measure_range_export_checked', 'strict_and_deprecated_entry_points_compared', 'long_run_of_malformed_cells_in_one_spine', 'multibyte_character_across_block_boundary']
 
     # ---------------------------------------------------------------- plan
     def gen_plan(self, seed, index, tier):
@@ -157,7 +157,52 @@ class C12:
         mode = 'history' if st['env'].random() < 0.25 else 'doc'
         if mode == 'history':
             return self._gen_history(st)
+        if st['burst'].random() < 0.03:         # (own stream: the other streams' draws are unchanged)
+            return self._gen_burst(st['burst'])
         return self._gen_doc(st)
+
+    def _gen_burst(self, rng):
+        """A long unbroken RUN of malformed cells in one spine (26..60 in a row, no good cell of that spine between them), followed
+        by valid rows: whatever an importer does after many failures, the cells after the run are judged like any others."""
+        from simkit.docgen import Row, Cell, KERN
+        headers = rng.choice([[KERN], [KERN, '**text'], ['**text', KERN, KERN], [KERN, KERN]])
+        F = dict(docgen.DEFAULT_FEATURES, chords=False, null_rows=False, dotted=False)
+        n = len(headers)
+        rows = [Row('header', [Cell(h, 'header', i) for i, h in enumerate(headers)]),
+                Row('interp', [Cell('*clefG2' if h == KERN else '*', 'clef' if h == KERN else 'null_interp', i) for i, h in enumerate(headers)])]
+
+        def data_row():
+            cells = []
+            for i, h in enumerate(headers):
+                if h == KERN:
+                    if rng.random() < 0.85:
+                        t, m = docgen.gen_note(rng, F)
+                        cells.append(Cell(t, 'note', i, m))
+                    else:
+                        t, m = docgen.gen_rest(rng, F)
+                        cells.append(Cell(t, 'rest', i, m))
+                else:
+                    cells.append(Cell(rng.choice(['la', 'do', 'x', 'amen', 'ky-']), 'text', i))
+            rows.append(Row('data', cells))
+        for _ in range(rng.randint(0, 3)):
+            data_row()
+        run_len = rng.randint(26, 60)
+        start = len(rows)
+        for _ in range(run_len):
+            data_row()
+        rows.append(Row('bar', [Cell('=2', 'bar', i, {'hidden': False}) for i in range(n)]))
+        for _ in range(rng.randint(2, 6)):
+            data_row()
+        rows.append(Row('term', [Cell('*-', 'op', i) for i in range(n)]))
+        doc = docgen.Doc(headers, rows, F)
+        col = rng.choice([i for i, h in enumerate(headers) if h == KERN])
+        faults = []
+        for ri in range(start, start + run_len):
+            text, kind, fam = malformed_for(rng, rows[ri].cells[col].text, kinds=list(STRICT_KINDS))
+            faults.append({'row': ri, 'col': col, 'text': text, 'kind': kind, 'family': fam})
+        return {'property': self.PROPERTY, 'mode': 'doc', 'config': 'fault_injecting', 'doc': doc.to_json(), 'eol': '\n', 'final_newline': True,
+                'faults': faults, 'blank_lines': [], 'warnings': 'default', 'via': 'string', 'fs': None, 'reenter': None, 'logging': 'default',
+                'entry_points': False, 'burst': run_len}
 
     def _gen_doc(self, st):
         drng, frng, erng = st['doc'], st['faults'], st['env']
@@ -209,7 +254,7 @@ class C12:
                 first = min(f['row'] for f in faults)
                 n_blank = erng.choice([1, 1, 2])
                 blank = sorted(erng.randrange(0, first + 1) for _ in range(n_blank))      # 0 = the text BEGINS with a blank line
-        return {'property': self.PROPERTY, 'mode': 'doc', 'config': 'fault_free' if fault_free else 'fault_injecting',
+        plan = {'property': self.PROPERTY, 'mode': 'doc', 'config': 'fault_free' if fault_free else 'fault_injecting',
                 'doc': doc.to_json(), 'eol': erng.choice(['\n', '\n', '\n', '\r\n']), 'final_newline': erng.random() < 0.8,
                 'faults': faults, 'blank_lines': blank, 'warnings': 'error' if erng.random() < 0.08 else 'default',
                 # (session 3) the damaged text reaches the importer through load() on the simulated file system in a fifth of the
@@ -223,6 +268,36 @@ class C12:
                 # imports ANOTHER text - damaged too - and returns; two imports are then in flight at once without any thread
                 'reenter': {'k_u': erng.randrange(1 << 30), 'which': erng.randrange(len(NESTED_TEXTS))} if erng.random() < 0.15 else None,
                 'logging': 'DEBUG' if erng.random() < 0.08 else 'default', 'entry_points': erng.random() < 0.2}
+        if plan['via'] == 'file' and faults and erng.random() < 0.5:
+            self._pad_to_block_edge(plan)
+        return plan
+
+    def _pad_to_block_edge(self, plan):
+        """File mode: a reference record is put in front of the score so that a multi-byte character of a malformed cell lies
+        exactly across the first I/O block boundary (byte 8192) of the stored file."""
+        from simkit.docgen import Row, Cell
+        doc = docgen.Doc.from_json(plan['doc'])
+        doc.rows.insert(0, Row('global', [Cell('!!!OTL: x', 'global', -1)]))
+        faults = [dict(f, row=f['row'] + 1) for f in plan['faults']]
+        blank = [b + 1 for b in plan['blank_lines']]
+        target = next((f for f in faults if any(ord(ch) > 127 for ch in f['text'])), None)
+        if target is None:
+            return
+        _, bad, _ = self._render(doc, plan['eol'], plan['final_newline'], faults, blank)
+        # byte offset of the first non-ASCII character of the target cell in the stored file
+        lines = bad.split(plan['eol'])
+        phys = target['row'] + sum(1 for b in blank if b <= target['row'])
+        cells = lines[phys].split('\t')
+        if target['col'] >= len(cells) or cells[target['col']] != target['text']:
+            return
+        upto = plan['eol'].join(lines[:phys]) + plan['eol'] + '\t'.join(cells[:target['col']]) + ('\t' if target['col'] else '')
+        ch = next(i for i, c in enumerate(target['text']) if ord(c) > 127)
+        off = len((upto + target['text'][:ch]).encode('utf-8'))
+        grow = 8191 - off
+        if grow < 0:
+            return
+        doc.rows[0].cells[0].text = '!!!OTL: x' + 'x' * grow
+        plan['doc'], plan['faults'], plan['blank_lines'], plan['block_edge'] = doc.to_json(), faults, blank, True
 
     def _gen_history(self, st):
         rng, frng, erng = st['ops'], st['faults'], st['env']
@@ -343,6 +418,8 @@ class C12:
             if bad_doc is not None:
                 log.emit('fault', 'loads-damaged', [[f['row'], f['col'], f['text']] for f in faults], errors_snapshot(bad_err))
                 self._probes_for(doc, faults, sub, blank, probes, bump)
+                if plan.get('burst'):
+                    bump(probes, 'long_run_of_malformed_cells_in_one_spine')
                 masked = self._check_damaged(kp, createImporter, doc, headers, faults, line_of, blank, ref_doc, bad_doc, bad_err, add_v, probes, bump, log)
                 if masked is not None:
                     self._check_exports(kp, doc, headers, faults, ref_kern, ref_ekern, ref_doc, bad_doc, masked, add_v, probes, bump, log)
@@ -439,6 +516,10 @@ class C12:
         fs.cwd = PREFIX
         fs.put(path, text.encode('utf-8'))
         bump(probes, 'damaged_text_loaded_from_file')
+        if plan.get('block_edge'):
+            data = text.encode('utf-8')
+            if len(data) > 8192 and (data[8192] & 0xC0) == 0x80:
+                bump(probes, 'multibyte_character_across_block_boundary')
         if fsplan['locale'] != 'utf-8':
             bump(probes, 'file_import_under_non_utf8_locale')
         with fs.mount():
